@@ -201,6 +201,12 @@ func (e *Exec) rtIntrinsic(name string, fn *ssa.Function, args []Value) (Value, 
 		okCore := tb.UF("b32ok", 0, cp)
 		valid := tb.And(tb.Not(isPad), okCore)
 		e.addPC(tb.Eq(tb.UF("b32ok", 0, sp), valid))
+		// well-formed bech32 whose payload is not an acceptable address (realised natively by the
+		// encoding of the empty payload)
+		wfCore := tb.UF("b32wf", 0, cp)
+		e.addPC(tb.Implies(okCore, wfCore))
+		e.addPC(tb.Eq(tb.UF("b32wf", 0, sp), tb.And(tb.Not(isPad), wfCore)))
+		e.addNondet(NondetRec{Name: n + "_wf", Kind: "uint", T: tb.Ite(wfCore, tb.BV(1, 8), tb.BV(0, 8))})
 		e.addNondet(NondetRec{Name: n + "_valid", Kind: "uint", T: tb.Ite(okCore, tb.BV(1, 8), tb.BV(0, 8))})
 		return TupleV{sv, valid}, true
 	case "NondetAddr":
